@@ -217,8 +217,12 @@ class Gen:
         i, ks, cs, n = info["i"], info["ks"], info["cs"], info["n"]
         lines = []
         pad = [self.role(info, j, "pad")]
+        # the body of a parameterless func literal starts directly with its call (see L0 below): the first
+        # identifier after `func` is then the one that carries the position of the call on the stack
+        paramless = j >= 1 and ks[j - 1] in ("goroutine", "iife") and cs[j - 1] in ("none", "complit", "litprev") and j % 2 == 0
         if j == n:
-            lines.append(Line(f"{ind}keep(0)", pad))
+            if not paramless:
+                lines.append(Line(f"{ind}keep(0)", pad))
             self.use(place, MODULE + "/rep")
             lines.append(Line(f'{ind}rep.Report("c{i}")', [self.role(info, j, "leaf")]))
             lines.append(Line(f"{ind}keep(1)", pad))
@@ -229,7 +233,8 @@ class Gen:
         call = [self.role(info, j, "call", hop=h)]
         if con == "litprev":
             lines.append(Line(f'{ind}keep("{lit}")', pad))
-        lines.append(Line(f"{ind}keep(0)", pad))
+        if not paramless:
+            lines.append(Line(f"{ind}keep(0)", pad))
         kw = "defer " if k == "deferred" else ("go " if k == "goroutine" else "")
         pre = "keep(lit0{A: 1, B: 2}); " if con == "complit" else ""
         if k not in LITERAL_KINDS or k == "closure":
